@@ -312,6 +312,8 @@ package quic
 //@   ensures [duplicate] implies(seq <= old(m.highestSeq) && !old(has(m.activeSrcConnIDs, seq)), result == nil && len(m.activeSrcConnIDs) == old(len(m.activeSrcConnIDs)) && m.highestSeq == old(m.highestSeq))
 //@   ensures [count-never-grows] len(m.activeSrcConnIDs) <= old(len(m.activeSrcConnIDs))
 //@   ensures [retired-gone] implies(result == nil && old(has(m.activeSrcConnIDs, seq)), !has(m.activeSrcConnIDs, seq))
+//@   ensures [every-retired-id-is-queued-for-removal] implies(old(has(m.activeSrcConnIDs, seq)) && !has(m.activeSrcConnIDs, seq), len(m.connIDsToRetire) == old(len(m.connIDsToRetire)) + 1)
+//@   ensures [rejected-retire-queues-nothing] implies(old(has(m.activeSrcConnIDs, seq)) == has(m.activeSrcConnIDs, seq) && seq <= old(m.highestSeq), len(m.connIDsToRetire) == old(len(m.connIDsToRetire)))
 //@   modifies m.activeSrcConnIDs[*], m.highestSeq, m.connIDsToRetire, m.connIDsToRetire[*]
 
 //@ extern slices.IndexFunc
@@ -1102,3 +1104,46 @@ package quic
 //@              implies(client, cideq(params.OriginalDestinationConnectionID, c.origDestConnID) &&
 //@                              ite(c.retrySrcConnID != nil, params.RetrySourceConnectionID != nil && cideq(*params.RetrySourceConnectionID, *c.retrySrcConnID), params.RetrySourceConnectionID == nil)))
 //@   modifies nothing
+
+// ---------------- per-stream flow controller construction (C04, C12) ----------------
+// The SEND window of a new stream starts at the limit the PEER advertised for that kind of stream, seen from the peer's side
+// (RFC 9000 18.2): streams we opened are "remote" for the peer, streams it opened are "local"; unidirectional streams
+// have their own limit. The RECEIVE window is what this endpoint enforces (Config).
+//@ func (c *Conn) newFlowController
+//@   props C04 C12
+//@   requires id >= 0 && c.peerParams != nil && c.config != nil && c.rttStats != nil && c.connFlowController != nil
+//@   requires typeis(c.connFlowController, *flowcontrol.connectionFlowController) && dyn(c.connFlowController, *flowcontrol.connectionFlowController).cInv()
+//@   requires 0 <= c.peerParams.InitialMaxStreamDataUni && c.peerParams.InitialMaxStreamDataUni <= 4611686018427387903 && 0 <= c.peerParams.InitialMaxStreamDataBidiRemote && c.peerParams.InitialMaxStreamDataBidiRemote <= 4611686018427387903 && 0 <= c.peerParams.InitialMaxStreamDataBidiLocal && c.peerParams.InitialMaxStreamDataBidiLocal <= 4611686018427387903
+//@   requires c.config.InitialStreamReceiveWindow <= 4611686018427387903 && c.config.MaxStreamReceiveWindow <= 4611686018427387903
+//@   let r = dyn(result, *flowcontrol.streamFlowController)
+//@   let uni = id % 4 >= 2
+//@   let mine = ite(id % 2 == 0, protocol.PerspectiveClient, protocol.PerspectiveServer) == c.perspective
+//@   ensures [send-window-is-the-peers-limit-for-this-kind-of-stream] typeis(result, *flowcontrol.streamFlowController) && r.sendWindow == ite(uni, c.peerParams.InitialMaxStreamDataUni, ite(mine, c.peerParams.InitialMaxStreamDataBidiRemote, c.peerParams.InitialMaxStreamDataBidiLocal))
+//@   ensures [receive-window-is-the-configured-one] uint64(r.receiveWindow) == c.config.InitialStreamReceiveWindow && uint64(r.maxReceiveWindowSize) == c.config.MaxStreamReceiveWindow
+//@   ensures [nothing-sent-yet] r.bytesSent == 0
+//@   modifies nothing
+
+// ---------------- the transport-parameter ID list a spec reports (C11) ----------------
+// "The ID list the spec reports equals what a fingerprinter canonicalising the wire sees": one entry per parameter that
+// survives suppression (duplicates kept), every GREASE identifier — recognised by its NUMERIC value 31*N+27, whatever the
+// Go type of the parameter — folded to 27.
+//@ spec canonicalTPID(x uint64) bool = !(x >= 27 && (x - 27) % 31 == 0) || x == 27
+//@ extern slices.Sort
+//@   ensures [same-length] len(x) == old(len(x))
+//@   ensures [same-elements] forall(k, 0, len(x), exists(j, 0, len(x), x[k] == old(x[j])))
+//@   modifies x[*]
+//@ func (s *QUICSpec) TransportParameterIDs
+//@   props C11
+//@   requires s.ClientHelloSpec == nil || len(s.ClientHelloSpec.Extensions) <= 65536
+//@   requires len(s.SuppressTransportParameters) <= 65536
+//@   requires s.ClientHelloSpec == nil || forall(k, 0, len(s.ClientHelloSpec.Extensions), implies(typeis(s.ClientHelloSpec.Extensions[k], *tls.QUICTransportParametersExtension), len(dyn(s.ClientHelloSpec.Extensions[k], *tls.QUICTransportParametersExtension).TransportParameters) <= 65536))
+//@   ensures [no-spec-no-list] implies(s.ClientHelloSpec == nil, len(result) == 0)
+//@   ensures [grease-folded-by-numeric-id] forall(k, 0, len(result), canonicalTPID(result[k]))
+//@   modifies heap(tls.QUICTransportParametersExtension.TransportParameters), elems(tls.TransportParameter)
+//@ loop (s *QUICSpec) TransportParameterIDs #0
+//@   invariant 0 <= rangeidx && rangeidx <= len(s.ClientHelloSpec.Extensions)
+//@   modifies nothing
+//@ loop (s *QUICSpec) TransportParameterIDs #1
+//@   invariant 0 <= rangeidx && rangeidx <= len(qtp.TransportParameters) && len(ids) == rangeidx && isfresh(ids)
+//@   invariant forall(k, 0, len(ids), canonicalTPID(ids[k]))
+//@   modifies ids[*]
